@@ -426,3 +426,344 @@ void h_lbuf_markhelpers(void)
 	__CPROVER_assert(0, "canary");
 #endif
 }
+
+/* ================================================================== lbuf_cp, lbuf_edit, lbuf_rd (C01, C04, C05, C06) */
+/* string-buffer callee contracts (proved on the real sbuf.c in units sbuf.*) as recording stubs:
+ * pieces are appended in program order, each exactly as long as asked for */
+struct ghost_sb { int live, made, freed, done; int next_line; int str_calls; int bad; long mem_total; int mem_calls; char *last_src; } SB;
+static struct sbuf { int d; } g_sbuf_obj;
+static char g_sb_text[2];
+struct lbuf *g_cp_lb;
+struct sbuf *sbuf_make(void)
+{
+	SB.live = SB.live < 1000 ? SB.live + 1 : 1000;
+	SB.made = SB.made < 1000 ? SB.made + 1 : 1000;
+	return &g_sbuf_obj;
+}
+void sbuf_free(struct sbuf *sb)
+{
+	__CPROVER_assert(sb == &g_sbuf_obj && SB.live > 0, "sbuf_free: a live string buffer");
+	SB.live--;
+	SB.freed = SB.freed < 1000 ? SB.freed + 1 : 1000;
+}
+char *sbuf_done(struct sbuf *sb)
+{
+	__CPROVER_assert(sb == &g_sbuf_obj && SB.live > 0, "sbuf_done: a live string buffer");
+	SB.live--;
+	SB.done = SB.done < 1000 ? SB.done + 1 : 1000;
+	return g_sb_text;
+}
+char *sbuf_buf(struct sbuf *sb)
+{
+	__CPROVER_assert(sb == &g_sbuf_obj && SB.live > 0, "sbuf_buf: a live string buffer");
+	return g_sb_text;
+}
+/* lbuf_cp appends whole lines: the next line of the range, nothing else */
+void sbuf_str(struct sbuf *sb, char *s)
+{
+	__CPROVER_assert(sb == &g_sbuf_obj && SB.live > 0, "sbuf_str: a live string buffer");
+	if (g_cp_lb) {
+		if (!(0 <= SB.next_line && SB.next_line < g_cp_lb->ln_n) || s != g_cp_lb->ln[SB.next_line])
+			SB.bad = 1;
+		SB.next_line = SB.next_line < 0x7ffffff0 ? SB.next_line + 1 : SB.next_line;
+	}
+	SB.str_calls = SB.str_calls < 0x7ffffff0 ? SB.str_calls + 1 : SB.str_calls;
+}
+/* lbuf_rd appends the chunk just read */
+void sbuf_mem(struct sbuf *sb, char *s, int len)
+{
+	__CPROVER_assert(sb == &g_sbuf_obj && SB.live > 0 && len >= 0, "sbuf_mem: a live string buffer, non-negative length");
+	__CPROVER_assert(len == 0 || __CPROVER_r_ok(s, len), "sbuf_mem: source readable for len bytes");
+	SB.last_src = s;
+	SB.mem_total = SB.mem_total < 0x3fffffffffffL ? SB.mem_total + len : SB.mem_total;
+	SB.mem_calls = SB.mem_calls < 0x7ffffff0 ? SB.mem_calls + 1 : SB.mem_calls;
+}
+
+char *lbuf_cp_contract(struct lbuf *lb, int beg, int end)
+__CPROVER_requires(__CPROVER_is_fresh(lb, sizeof(*lb)) && 0 <= lb->ln_n && lb->ln_n < lb->ln_sz && lb->ln_sz <= MAXLINES)
+__CPROVER_requires(__CPROVER_is_fresh(lb->ln, sizeof(char *) * lb->ln_sz) && g_cp_lb == lb)
+/* callers (ex_yank after ex_region, lbuf_opt, vi's lbuf_region) pass 0 <= beg <= end; end may lie beyond the buffer */
+__CPROVER_requires(0 <= beg && beg <= end && SB.next_line == beg && !SB.bad && SB.live == 0 && SB.done == 0 && SB.str_calls == 0)
+__CPROVER_assigns(SB)
+__CPROVER_ensures(__CPROVER_return_value == g_sb_text && SB.live == 0 && SB.done == 1)
+/* exactly the lines [beg, min(end, ln_n)) were appended, each once, in order; nothing outside the buffer is touched */
+__CPROVER_ensures(!SB.bad && SB.str_calls == ((end < lb->ln_n ? end : lb->ln_n) > beg ? (end < lb->ln_n ? end : lb->ln_n) - beg : 0))
+;
+
+void h_lbuf_cp(void)
+{
+	struct lbuf *lb;
+	int beg, end;
+	LB_GHOST_INIT();
+	g_cp_lb = nondet_ptr();
+	SB.next_line = nondet_int(); SB.bad = 0; SB.live = 0; SB.done = 0; SB.str_calls = 0; SB.made = 0; SB.freed = 0;
+	lbuf_cp(lb, beg, end);
+#ifdef CANARY
+	__CPROVER_assert(0, "canary");
+#endif
+}
+
+/* ---- lbuf_edit: clamp, no-op, or exactly log-then-splice with the same arguments ---- */
+struct ghost_ed { int opt_calls, rep_calls; char *opt_buf, *rep_buf; int opt_pos, opt_ndel, rep_pos, rep_ndel; int order_ok; } ED;
+void lbuf_opt_rec_contract(struct lbuf *lb, char *buf, int pos, int n_del)
+__CPROVER_requires(lb != 0 && 0 <= pos && 0 <= n_del && pos + n_del <= lb->ln_n)
+__CPROVER_assigns(ED)
+__CPROVER_ensures(ED.opt_calls == __CPROVER_old(ED.opt_calls) + 1 && ED.opt_buf == buf && ED.opt_pos == pos && ED.opt_ndel == n_del &&
+	ED.rep_calls == __CPROVER_old(ED.rep_calls) && ED.order_ok == (__CPROVER_old(ED.rep_calls) == 0))
+;
+void lbuf_replace_rec_contract(struct lbuf *lb, char *s, int pos, int n_del)
+__CPROVER_requires(lb != 0 && 0 <= pos && 0 <= n_del && pos + n_del <= lb->ln_n)
+__CPROVER_assigns(ED.rep_calls, ED.rep_buf, ED.rep_pos, ED.rep_ndel)
+__CPROVER_ensures(ED.rep_calls == __CPROVER_old(ED.rep_calls) + 1 && ED.rep_buf == s && ED.rep_pos == pos && ED.rep_ndel == n_del)
+;
+void lbuf_edit_contract(struct lbuf *lb, char *buf, int beg, int end)
+__CPROVER_requires(__CPROVER_is_fresh(lb, sizeof(*lb)) && 0 <= lb->ln_n && lb->ln_n <= MAXLINES)
+/* every caller passes 0 <= beg <= end (validated ranges; end may be past the buffer: it is clamped) */
+__CPROVER_requires(0 <= beg && beg <= end && ED.opt_calls == 0 && ED.rep_calls == 0)
+__CPROVER_assigns(ED)
+/* nothing to do: no log entry, no splice */
+__CPROVER_ensures(((beg >= lb->ln_n ? lb->ln_n : beg) == (end > lb->ln_n ? lb->ln_n : end) && buf == 0) ==> (ED.opt_calls == 0 && ED.rep_calls == 0))
+/* otherwise: every splice first logs the deleted and inserted text - one log entry, then one splice, same clamped arguments */
+__CPROVER_ensures(!((beg >= lb->ln_n ? lb->ln_n : beg) == (end > lb->ln_n ? lb->ln_n : end) && buf == 0) ==> (
+	ED.opt_calls == 1 && ED.rep_calls == 1 && ED.order_ok && ED.opt_buf == buf && ED.rep_buf == buf &&
+	ED.opt_pos == (beg > lb->ln_n ? lb->ln_n : beg) && ED.rep_pos == ED.opt_pos &&
+	ED.opt_ndel == (end > lb->ln_n ? lb->ln_n : end) - ED.opt_pos && ED.rep_ndel == ED.opt_ndel))
+;
+void h_lbuf_edit(void)
+{
+	struct lbuf *lb;
+	char *buf = nondet_bool() ? g_sb_text : (char *) 0;
+	int beg, end;
+	LB_GHOST_INIT();
+	ED.opt_calls = 0; ED.rep_calls = 0; ED.order_ok = 0;
+	lbuf_edit(lb, buf, beg, end);
+#ifdef CANARY
+	__CPROVER_assert(0, "canary");
+#endif
+}
+
+/* ---- lbuf_rd: chunks are appended in order; one splice at EOF; a read error leaves the buffer alone ---- */
+struct ghost_rd { long total; int calls; int eof; int err; int edit_calls; char *edit_buf; int edit_beg, edit_end; long edit_total; int bad; } RD;
+/* STUB: read(2) - returns -1, 0 (EOF) or any count 1..n at every call; records the stream length */
+ssize_t read(int fd, void *buf, size_t n)
+{
+	__CPROVER_assert(__CPROVER_w_ok(buf, n), "read: buffer writable for n bytes");
+	__CPROVER_assert(!RD.eof && !RD.err, "lbuf_rd: no read after EOF or an error");
+	long r = nondet_long();
+	__CPROVER_assume(-1 <= r && r <= (long) n);
+	RD.calls = RD.calls < 0x7ffffff0 ? RD.calls + 1 : RD.calls;
+	if (r < 0)
+		RD.err = 1;
+	else if (r == 0)
+		RD.eof = 1;
+	else {
+		__CPROVER_havoc_object(buf);
+		RD.total = RD.total < 0x3fffffffffffL ? RD.total + r : RD.total;
+	}
+	return r;
+}
+void lbuf_edit_rd_contract(struct lbuf *lb, char *buf, int beg, int end)
+__CPROVER_requires(lb != 0 && buf != 0)
+__CPROVER_assigns(RD.edit_calls, RD.edit_buf, RD.edit_beg, RD.edit_end, RD.edit_total)
+__CPROVER_ensures(RD.edit_calls == __CPROVER_old(RD.edit_calls) + 1 && RD.edit_buf == buf && RD.edit_beg == beg && RD.edit_end == end && RD.edit_total == SB.mem_total)
+;
+int lbuf_rd_contract(struct lbuf *lbuf, int fd, int beg, int end)
+__CPROVER_requires(lbuf != 0 && RD.calls == 0 && RD.total == 0 && !RD.eof && !RD.err && RD.edit_calls == 0 &&
+	SB.live == 0 && SB.mem_total == 0 && SB.mem_calls == 0 && SB.freed == 0 && g_cp_lb == 0)
+__CPROVER_assigns(RD, SB)
+__CPROVER_ensures(__CPROVER_return_value == 0 || __CPROVER_return_value == 1)
+/* a failing read: reported, and the buffer is not touched */
+__CPROVER_ensures(RD.err ==> (__CPROVER_return_value == 1 && RD.edit_calls == 0))
+/* EOF: exactly one splice of the requested range with the accumulated text: every chunk, whatever its size (1..1024), appended once, in order */
+__CPROVER_ensures(!RD.err ==> (__CPROVER_return_value == 0 && RD.eof && RD.edit_calls == 1 && RD.edit_buf == g_sb_text &&
+	RD.edit_beg == beg && RD.edit_end == end && RD.edit_total == RD.total && SB.mem_total == RD.total))
+/* the accumulation buffer is released on every path */
+__CPROVER_ensures(SB.live == 0 && SB.freed == 1)
+;
+void h_lbuf_rd(void)
+{
+	struct lbuf *lb = (struct lbuf *) malloc(1);
+	int fd, beg, end;
+	LB_GHOST_INIT();
+	g_cp_lb = 0;
+	RD.calls = 0; RD.total = 0; RD.eof = 0; RD.err = 0; RD.edit_calls = 0;
+	SB.live = 0; SB.mem_total = 0; SB.mem_calls = 0; SB.freed = 0; SB.made = 0; SB.done = 0; SB.bad = 0;
+	lbuf_rd(lb, fd, beg, end);
+#ifdef CANARY
+	__CPROVER_assert(0, "canary");
+#endif
+}
+
+/* ================================================================== lbuf_replace: BOUNDED functional check of the splice (C01, C04, C06, C15) */
+/* The real lbuf_replace with the real malloc/memcpy/memmove/strchr/strlen (CBMC's models), on
+ * every buffer of at most 2 lines (each at most 1 byte + newline) in a table of capacity 3 - so
+ * that an insertion makes the table grow (3 -> 6) -, every text of at most 4 bytes (up to 2 lines,
+ * last line with or without newline), every position and deletion count, every mark and glob value. */
+#define B_MAXLN 2
+static int b_streq(const char *a, const char *b, int n)
+{
+	int k;
+	for (k = 0; k < n; k++)
+		if (a[k] != b[k])
+			return 0;
+	return 1;
+}
+void h_lbuf_replace_bounded(void)
+{
+	struct lbuf *lb = malloc(sizeof(*lb));
+	char old[B_MAXLN][4];	/* copies of the old lines */
+	char oglob[B_MAXLN];
+	int omark[NMARKS];
+	char txt[5];
+	int i, k, n = nondet_int(), pos = nondet_int(), n_del = nondet_int(), tl = nondet_int(), has_txt = nondet_bool();
+	__CPROVER_assume(0 <= n && n <= B_MAXLN && 0 <= pos && 0 <= n_del && pos + n_del <= n);
+	lb->ln_n = n;
+	lb->ln_sz = 3;
+	lb->ln = malloc(3 * sizeof(char *));
+	lb->ln_glob = malloc(3);
+	for (i = 0; i < B_MAXLN; i++) {
+		int l = nondet_int();
+		__CPROVER_assume(0 <= l && l <= 1);
+		for (k = 0; k < l; k++) {
+			old[i][k] = nondet_char();
+			__CPROVER_assume(old[i][k] != 0 && old[i][k] != '\n');
+		}
+		old[i][l] = '\n';
+		old[i][l + 1] = 0;
+		if (i < n) {
+			lb->ln[i] = malloc(l + 2);
+			for (k = 0; k < l + 2; k++)
+				lb->ln[i][k] = old[i][k];
+			lb->ln_glob[i] = oglob[i] = nondet_char();
+		}
+	}
+	for (i = 0; i < NMARKS; i++) {
+		lb->mark[i] = omark[i] = nondet_int();
+		__CPROVER_assume(-1 <= omark[i] && omark[i] < n);
+		lb->mark_off[i] = 0;
+	}
+	__CPROVER_assume(0 <= tl && tl <= 4);
+	for (k = 0; k < 4; k++) {
+		txt[k] = nondet_char();
+		__CPROVER_assume(k >= tl || txt[k] != 0);
+	}
+	txt[tl] = 0;
+	/* reference: split the text into lines, each re-terminated by exactly one newline */
+	char want[4][8];
+	int n_ins = 0, p = 0;
+	if (has_txt)
+		while (p < tl && n_ins < 4) {
+			int q = 0;
+			while (p < tl && txt[p] != '\n')
+				want[n_ins][q++] = txt[p++];
+			if (p < tl)
+				p++;	/* the newline */
+			want[n_ins][q++] = '\n';
+			want[n_ins][q] = 0;
+			n_ins++;
+		}
+	__CPROVER_assume(n_ins <= 2);
+	char *oldptr[B_MAXLN];
+	for (i = 0; i < B_MAXLN; i++)
+		oldptr[i] = i < n ? lb->ln[i] : (char *) 0;
+	lbuf_replace(lb, has_txt ? txt : (char *) 0, pos, n_del);
+	/* the splice law */
+	__CPROVER_assert(lb->ln_n == n + n_ins - n_del, "lbuf_replace: new line count = old - deleted + inserted");
+	__CPROVER_assert(lb->ln_n < lb->ln_sz, "lbuf_replace: the table keeps a spare slot");
+	for (i = 0; i < B_MAXLN; i++) {
+		if (i < pos)
+			__CPROVER_assert(lb->ln[i] == oldptr[i] && lb->ln_glob[i] == oglob[i], "lbuf_replace: lines before the range keep their place, bytes and global mark");
+		if (i >= pos + n_del && i < n)
+			__CPROVER_assert(lb->ln[i + n_ins - n_del] == oldptr[i] && lb->ln_glob[i + n_ins - n_del] == oglob[i],
+				"lbuf_replace: lines after the range keep their bytes, order and global mark, shifted by inserted - deleted");
+		if (i < n_ins) {
+			__CPROVER_assert(b_streq(lb->ln[pos + i], want[i], 8 > 0 ? (int) strlen(want[i]) + 1 : 0), "lbuf_replace: the inserted lines are the lines of the text, each ended by exactly one newline");
+			if (i >= n_del)
+				__CPROVER_assert(lb->ln_glob[pos + i] == 0, "lbuf_replace: lines created beyond the replaced count start without global marks");
+		}
+	}
+	/* marks travel with their lines */
+	for (i = 0; i < NMARKS_BASE; i++) {
+		if (omark[i] >= 0 && omark[i] < pos)
+			__CPROVER_assert(lb->mark[i] == omark[i], "lbuf_replace: a mark before the range is unchanged");
+		if (omark[i] >= pos + n_del)
+			__CPROVER_assert(lb->mark[i] == omark[i] + n_ins - n_del, "lbuf_replace: a mark after the range follows its line");
+		if (omark[i] >= pos && omark[i] < pos + n_del)
+			__CPROVER_assert(lb->mark[i] == (!has_txt ? -1 : omark[i] >= pos + n_ins ? pos + n_ins - 1 : omark[i]) || (has_txt && n_ins == 0 && lb->mark[i] == pos - 1),
+				"lbuf_replace: a mark on a deleted line is dropped on pure deletion, clamped into the replacement otherwise");
+	}
+#ifdef CANARY
+	__CPROVER_assert(0, "canary");
+#endif
+}
+
+/* ================================================================== lbuf_opt: every splice first logs the deleted and inserted text (C04, C02) */
+int g_LC;		/* what linecount() answers for the inserted text */
+char g_cp_text[2], g_dup_text[2];
+int g_lopt_done_calls;
+int linecount_contract(char *s)
+__CPROVER_requires(1)
+__CPROVER_assigns()
+__CPROVER_ensures(__CPROVER_return_value == g_LC)
+;
+char *lbuf_cp_opt_contract(struct lbuf *lb, int beg, int end)
+__CPROVER_requires(lb != 0 && 0 <= beg && beg <= end && end <= lb->ln_n)
+__CPROVER_assigns()
+__CPROVER_ensures(__CPROVER_return_value == g_cp_text)
+;
+/* STUB: uc_dup - a fresh copy (here: a ghost object standing for it) */
+char *uc_dup(char *s)
+{
+	__CPROVER_assert(s != 0, "uc_dup: argument is not NULL");
+	return g_dup_text;
+}
+void lopt_done_opt_contract(struct lopt *lo)
+__CPROVER_requires(lo != 0)
+__CPROVER_assigns(g_lopt_done_calls)
+__CPROVER_ensures(g_lopt_done_calls == __CPROVER_old(g_lopt_done_calls) + 1)
+;
+void lbuf_savemark_contract(struct lbuf *lb, struct lopt *lo, int m)
+__CPROVER_requires(lb != 0 && lo != 0 && 0 <= m && m < NMARKS)
+__CPROVER_assigns(lo->mark, lo->mark_off)
+;
+
+char g_oldbyte;
+void lbuf_opt_contract(struct lbuf *lb, char *buf, int pos, int n_del)
+__CPROVER_requires(HIST_PRE(lb) && lb->hist_sz <= MAXHIST / 2)
+__CPROVER_requires(0 <= lb->ln_n && lb->ln_n <= MAXLINES && 0 <= pos && pos <= lb->ln_n && 0 <= n_del && n_del <= lb->ln_n - pos)
+__CPROVER_requires(0 <= g_LC && g_LC <= MAXLINES && 0 <= g_lopt_done_calls && g_lopt_done_calls < 1000)
+/* case split on the capacity test (the two units together cover every state) */
+#ifdef OPT_NOGROW
+__CPROVER_requires(lb->hist_u < lb->hist_sz)
+#endif
+#ifdef OPT_GROW
+__CPROVER_requires(lb->hist_u == lb->hist_sz)
+#endif
+/* witness byte of the part of the history below the undo cursor */
+__CPROVER_requires((0 <= g_mw && g_mw < (long) lb->hist_u * (long) sizeof(struct lopt)) ==> g_oldbyte == ((char *) lb->hist)[g_mw])
+__CPROVER_assigns(lb->hist, lb->hist_sz, lb->hist_n, lb->hist_u, g_lopt_done_calls, __CPROVER_object_upto(lb->mark, sizeof(lb->mark)), __CPROVER_object_upto(lb->mark_off, sizeof(lb->mark_off));
+	lb->hist != 0: __CPROVER_object_whole(lb->hist))
+__CPROVER_frees(lb->hist)
+/* the redo branch above the undo cursor is discarded (each of its entries released), one entry is appended at the cursor */
+__CPROVER_ensures(lb->hist_n == __CPROVER_old(lb->hist_u) + 1 && lb->hist_u == lb->hist_n && lb->hist_n <= lb->hist_sz && lb->hist != 0)
+__CPROVER_ensures(g_lopt_done_calls == __CPROVER_old(g_lopt_done_calls) + (__CPROVER_old(lb->hist_n) - __CPROVER_old(lb->hist_u)))
+/* the entry records the splice and carries the current sequence number */
+__CPROVER_ensures(lb->hist[lb->hist_n - 1].pos == pos && lb->hist[lb->hist_n - 1].n_del == n_del && lb->hist[lb->hist_n - 1].seq == lb->useq)
+__CPROVER_ensures(lb->hist[lb->hist_n - 1].del == (n_del ? g_cp_text : (char *) 0))
+__CPROVER_ensures(lb->hist[lb->hist_n - 1].ins == (buf ? g_dup_text : (char *) 0) && lb->hist[lb->hist_n - 1].n_ins == (buf ? g_LC : 0))
+/* the history below the cursor is kept, byte for byte, also when the table grows */
+__CPROVER_ensures((0 <= g_mw && g_mw < (long) __CPROVER_old(lb->hist_u) * (long) sizeof(struct lopt)) ==> ((char *) lb->hist)[g_mw] == g_oldbyte)
+;
+
+void h_lbuf_opt(void)
+{
+	struct lbuf *lb;
+	char *buf = nondet_bool() ? g_sb_text : (char *) 0;
+	int pos, n_del;
+	LB_GHOST_INIT();
+	g_LC = nondet_int(); g_lopt_done_calls = nondet_int(); g_oldbyte = nondet_char();
+	lbuf_opt(lb, buf, pos, n_del);
+#ifdef CANARY
+	__CPROVER_assert(0, "canary");
+#endif
+}
